@@ -571,8 +571,18 @@ fn plant_convergent_chains(sc: &mut Scenario, mv: u8, var: u8) {
         }
         layout.push((k, vec![]));
     }
+    // up to two root Ephemerals that feed two jobs each somewhere in the chains (delayed while their
+    // consumers are undecided; decided when a cascade of skips or of upstream failures reaches those)
+    let nfeeders = next(3);
+    let mut feeders: Vec<usize> = vec![];
+    for _ in 0..nfeeders {
+        feeders.push(layout.len());
+        layout.push((Kind::Ephemeral, vec![]));
+    }
     let mut lasts: Vec<usize> = vec![];
     let mut mids: Vec<usize> = vec![];
+    let mut chain_roots: Vec<usize> = vec![];
+    let first_chain_job = layout.len();
     for _ in 0..nchains {
         let len = 1 + next(max_len);
         let mut prev: Option<usize> = None;
@@ -590,6 +600,9 @@ fn plant_convergent_chains(sc: &mut Scenario, mv: u8, var: u8) {
             if kind == Kind::Always {
                 always_roots.push(idx);
             }
+            if k == 0 {
+                chain_roots.push(idx);
+            }
             layout.push((kind, deps));
             if k + 1 < len {
                 mids.push(idx);
@@ -605,6 +618,19 @@ fn plant_convergent_chains(sc: &mut Scenario, mv: u8, var: u8) {
     };
     let sink = layout.len();
     layout.push((sink_kind, lasts.clone()));
+    for f in feeders.iter() {
+        let span = sink + 1 - first_chain_job;
+        let a = first_chain_job + next(span);
+        let b = first_chain_job + next(span);
+        for c in [a, b] {
+            if layout[c].0 != Kind::Always || c == sink {
+                if !layout[c].1.contains(f) {
+                    layout[c].1.push(*f);
+                }
+            }
+        }
+    }
+    let fail_root = next(3) == 0;
     if sink_kind == Kind::Ephemeral || next(3) == 0 {
         layout.push((Kind::Output, vec![sink]));
     }
@@ -697,6 +723,18 @@ fn plant_convergent_chains(sc: &mut Scenario, mv: u8, var: u8) {
                 sc.steps[1].plan.abort = None;
             }
         }
+    }
+    if fail_root {
+        // the root of the first chain is made to run and fails: an upstream-failure cascade through the
+        // chain into the sink, past the delayed feeders
+        let r = chain_roots[0];
+        let st = &mut sc.steps[1];
+        st.edits.push(Edit::Delete(r, 1));
+        if sc.slots[r].kind == Kind::Always {
+            st.edits.push(Edit::Bump(r));
+        }
+        st.plan.fail |= 1u32 << r;
+        st.plan.abort = None;
     }
 }
 
